@@ -86,19 +86,36 @@ class World:
         self.threads.append(t)
         return t
 
-    def run(self, max_steps=4000):
+    def run(self, max_steps=4000, script=None, teardown=True):
         steps = 0
         while steps < max_steps:
             en = [t for t in self.threads if t.enabled()]
-            if not en:
+            if not en or (script is not None and not script):
                 break
-            t = self.rng.choice(en)
+            if script is not None:
+                # a script entry runs the named thread until it parks in a wait() or finishes
+                t = [x for x in self.threads if x.name == script[0]][0]
+                if not t.enabled():
+                    if t.state in ("wait", "done") and getattr(t, "_ran", False):
+                        t._ran = False
+                        script.pop(0)
+                        continue
+                    raise RuntimeError("scripted schedule: thread %s is not enabled (%s)" % (t.name, t.state))
+                if t.state == "wait" and getattr(t, "_ran", False):
+                    t._ran = False
+                    script.pop(0)
+                    continue
+                t._ran = True
+            else:
+                t = self.rng.choice(en)
             self.current = t
             t.sem.release()
             self.baton.acquire()
             self.current = None
             steps += 1
         stuck = [t for t in self.threads if t.state != "done"]
+        if not teardown:
+            return steps, stuck
         for t in stuck:                       # tear down
             t.abort = True
             self.current = t
@@ -133,8 +150,7 @@ class SThread:
                     self.call = {"entry": entry, "obj": obj, "trace": [], "done": None}
                     self.calls.append(self.call)
                     try:
-                        fn()
-                        self.call["done"] = ("ret", None)
+                        self.call["done"] = ("ret", fn())
                     except Abort:
                         raise
                     except BaseException as e:  # noqa
@@ -880,6 +896,114 @@ def gc_instances(w, llc):
 
 
 # ================================================================================================
+# part 3: what the exemptions hide - interleavings on the REAL code (deterministic, scripted schedules)
+# ================================================================================================
+def witness(repo):
+    """three scripted schedules on a real DataLinkConnection; returns a list of (title, lines, holds)"""
+    mods = load_modules(repo)
+    llcp, pdu, tco, llc = mods
+    real = tco.threading
+    out = []
+
+    def world(recv_win=1, send_win=2):
+        w = World(random.Random(0))
+        tco.threading = fake_threading(w)
+        QUALIFY.clear()
+        T = tco.TransmissionControlObject
+        restore = install_hooks(w, [T], [T.State, T.Mode])
+        s = tco.DataLinkConnection(128, recv_win)
+        s.addr, s.peer, s.send_miu, s.send_win = 32, 33, 128, send_win
+        s.state.ESTABLISHED = True
+        adopt_object(w, s)
+        return w, s, restore
+
+    def where(w, s):
+        return ", ".join("%s: %s" % (t.name, "returned %r" % (t.calls[-1]["done"][1],) if t.state == "done" else
+                                     ("blocked in %s.wait()" % t.cv.name if t.state == "wait" else t.state))
+                         for t in w.threads)
+    try:
+        # ---- A: `if`/except-guarded single-shot wait in recv(): a second receiver steals the PDU
+        w, s, restore = world()
+        try:
+            w.spawn("A", [(s, "recv", lambda: s.recv())])
+            w.spawn("link", [(s, "enqueue", lambda: s.enqueue(pdu.Information(32, 33, ns=0, nr=0, data=b"hello")))])
+            w.spawn("B", [(s, "recv", lambda: s.recv())])
+            w.recording = True
+            w.run(script=["A", "link", "B", "A"], teardown=False)
+            a, b = w.threads[0].calls[0]["done"], w.threads[2].calls[0]["done"]
+            holds = a == ("ret", None) and b == ("ret", b"hello") and bool(s.state.ESTABLISHED)
+            out.append(("recv() is woken once and does not re-check: a wake-up that finds the queue empty reports "
+                        "'connection closed' on a live connection",
+                        ["DataLinkConnection ESTABLISHED, recv_queue empty",
+                         "A: recv() -> TransmissionControlObject.recv: popleft raises IndexError -> recv_ready.wait()  [blocked]",
+                         "link: enqueue(I PDU 'hello') -> recv_queue.append, recv_ready.notify()  [A notified, not yet running]",
+                         "B: recv() takes the lock first -> popleft -> returns %r" % (b[1],),
+                         "A: re-acquires the lock -> popleft raises IndexError -> DataLinkConnection.recv returns %r "
+                         "although state is %s" % (a[1], s.state),
+                         "final: " + where(w, s)], holds))
+        finally:
+            w.recording = False
+            w.run(max_steps=0)
+            restore()
+        # ---- B: plain notify() with two waiters on recv_ready (a poller and a receiver)
+        w, s, restore = world()
+        try:
+            w.spawn("P", [(s, "poll", lambda: s.poll("recv", None))])
+            w.spawn("R", [(s, "recv", lambda: s.recv())])
+            w.spawn("link", [(s, "enqueue", lambda: s.enqueue(pdu.Information(32, 33, ns=0, nr=0, data=b"hello")))])
+            w.recording = True
+            steps, stuck = w.run(script=["P", "R", "link", "P"], teardown=False)
+            en = [t.name for t in w.threads if t.enabled()]
+            r = w.threads[1]
+            holds = r.state == "wait" and not r.notified and len(s.recv_queue) == 1 and s.lock.owner is None and not en
+            out.append(("plain notify() in enqueue() with two threads waiting on recv_ready: the receiver stays blocked "
+                        "although a message is queued (lost wake-up)",
+                        ["DataLinkConnection ESTABLISHED, RW(local)=1, recv_queue empty",
+                         "P: poll('recv', timeout=None) -> recv_ready.wait()  [blocked, first waiter]",
+                         "R: recv() -> recv_ready.wait()  [blocked, second waiter]",
+                         "link: enqueue(I PDU 'hello') -> recv_queue.append, recv_ready.notify()  [wakes ONE: P]",
+                         "P: returns %r" % (w.threads[0].calls[0]["done"][1],),
+                         "now: lock free, len(recv_queue) = %d, R still in recv_ready.wait(), not notified; enabled threads: %s"
+                         % (len(s.recv_queue), en or "none"),
+                         "the window (RW=1) is full, so the peer cannot send another I PDU: nothing will ever notify R",
+                         "final: " + where(w, s)], holds))
+        finally:
+            w.recording = False
+            w.run(max_steps=0)
+            restore()
+        # ---- C: plain notify() on send_token with two senders blocked on a closed window
+        w, s, restore = world(send_win=2)
+        try:
+            s.send_cnt, s.send_ack = 2, 0          # two I PDUs outstanding: window closed
+            w.spawn("S1", [(s, "send", lambda: s.send(b"one", 0))])
+            w.spawn("S2", [(s, "send", lambda: s.send(b"two", 0))])
+            w.spawn("link", [(s, "enqueue", lambda: s.enqueue(pdu.ReceiveReady(32, 33, nr=2)))])
+            w.recording = True
+            w.run(script=["S1", "S2", "link", "S1"], teardown=False)
+            s2 = w.threads[1]
+            en = [t.name for t in w.threads if t.enabled()]
+            holds = s2.state == "wait" and not s2.notified and s.send_window_slots == 1 and s.lock.owner is None and not en
+            out.append(("plain notify() on send_token with two senders: an acknowledgement that opens two window slots "
+                        "wakes one sender, the other stays blocked with the window open",
+                        ["DataLinkConnection ESTABLISHED, RW(remote)=2, V(S)=2, V(SA)=0 (window closed)",
+                         "S1: send('one') -> while send_window_slots == 0: send_token.wait()  [blocked]",
+                         "S2: send('two') -> send_token.wait()  [blocked]",
+                         "link: enqueue(RR N(R)=2) -> acks_recvd += 2, acks_ready.notify_all(), send_token.notify(), V(SA) := 2",
+                         "S1: wakes, window has 2 slots, queues its I PDU (V(S)=3) and waits for the dequeue",
+                         "now: lock free, send_window_slots = %d, S2 still in send_token.wait(), not notified; enabled threads: %s"
+                         % (s.send_window_slots, en or "none"),
+                         "S2 is released only by the NEXT acknowledgement (or close)",
+                         "final: " + where(w, s)], holds))
+        finally:
+            w.recording = False
+            w.run(max_steps=0)
+            restore()
+    finally:
+        tco.threading = real
+    return out
+
+
+# ================================================================================================
 # part 2: mutations
 # ================================================================================================
 def private_workspace():
@@ -990,6 +1114,8 @@ MUTATIONS = [
     ("manual-release", TCO, "    def sendack(self):\n        if self.state.ESTABLISHED:\n            with self.lock:\n",
      "    def sendack(self):\n        if self.state.ESTABLISHED:\n            self.lock.acquire()\n            if True:\n",
      "lock taken by hand", "dlc_discipline_ok"),
+    ("condition-aliased", TCO, "                self.send_token.wait()", "                cv = self.send_token\n                cv.wait()",
+     "the condition is reached through a local alias (the translator refuses)", "dlc_discipline_ok"),
     ("harmless-log-line", TCO, "            self.log(\"close()\")", "            self.log(\"close() called\")",
      "CONTROL: a change that must NOT break anything", "-"),
 ]
@@ -1022,8 +1148,7 @@ def mutate(no_lean=False, only=None):
             rc, broken = lean_check(ws, root)
         caught = bool(broken) if broken is not None else bool(diag)
         ok = (caught and (broken is None or expect in broken)) if expect != "-" else not caught
-        rows.append((name, what, expect, sorted({d[2].split(":")[0] + ":" + d[2].split(":")[1][:60] for d in diag})[:2],
-                     broken, ok))
+        rows.append((name, what, expect, sorted({d[2][:90] for d in diag})[:2], broken, ok))
         print("%-30s %-5s expected %-20s lean-broken=%s" % (name, "ok" if ok else "MISS", expect, broken))
         sys.stdout.flush()
     shutil.rmtree(root, ignore_errors=True)
@@ -1045,8 +1170,19 @@ def main():
             print("   ", c)
         if contra or kinds.get("waitB", 0) == 0 or kinds.get("ntf", 0) == 0 or kinds.get("ntfAll", 0) == 0:
             rc = 1
+    if only in (None, "witness"):
+        for title, lines, holds in witness(REPO):
+            print("witness [%s]: %s" % ("reproduced" if holds else "NOT reproduced", title))
+            for l in lines:
+                print("    " + l)
     if only in (None, "mutate"):
-        rows = mutate(no_lean="--no-lean" in args)
+        names = args[args.index("--names") + 1].split(",") if "--names" in args else None
+        rows = mutate(no_lean="--no-lean" in args, only=names)
+        print("| mutation | what | expected to break | theorems that break (Lean) | diagnosis (first reasons) |")
+        print("|---|---|---|---|---|")
+        for name, what, expect, diag, broken, ok in rows:
+            print("| %s | %s | %s | %s | %s |" % (name, what, expect, ", ".join(broken) if broken is not None else "(not run)",
+                                                "; ".join(diag) or "-"))
         missed = [r for r in rows if not r[5]]
         print("mutations: %d, as expected: %d, not as expected: %d" % (len(rows), len(rows) - len(missed), len(missed)))
         if missed:
